@@ -213,8 +213,11 @@ class World:
         self.sleeps = 0
         self.slept = 0.0                  # total duration handed to time.sleep
 
+    base_state = "alive"                  # what the pid is BEFORE the fault fires (block histories set it per step)
+    base_zcode = None
+
     def cur_state(self):
-        return self.state if self.switched else "alive"
+        return self.state if self.switched else self.base_state
 
 
 # yes/no questions about a path: one stat()/lstat() whose OSError is swallowed (genericpath.exists / isfile,
@@ -849,6 +852,64 @@ class Emu:
         if with_answers:
             return obs, w.trace, w.answers
         return obs, w.trace
+
+    def run_block(self, history, meth, pid=42, fault_k=None, err=None, state="alive", pid0_listed=True,
+                  name="c20cached", ppid=7, zcode=None, exited=False):
+        """One `oneshot()` block on ONE Process object: `oneshot_enter()`, then every (method, pid state) of `history`
+        in order without fault (the pid is in that state while the call runs), then — after `oneshot_exit()` when
+        `exited` — `meth` whose native call number `fault_k` (counted within that last call) raises `err`, the pid being
+        in `state` from that moment on (before it: the state of the last history step).
+        Returns (observable of the last call, [observables of the history], trace of the last call, [traces of the
+        history calls])."""
+        self.clear_caches()
+        w = World(self, pid, None, err, state, pid0_listed, False, None, None, zcode=zcode)
+        self.world = w
+        hobs, htr = [], []
+        p = None
+        entered = False
+
+        def one(m, args=None):
+            try:
+                r = getattr(p, m)(*(self.method_args(m) if args is None else args))
+                if isinstance(r, types.GeneratorType):
+                    r = list(r)
+                return {"kind": "value", "value": canon(r)}
+            except Unscripted as e:
+                return {"kind": "unscripted", "what": str(e)}
+            except BaseException as e:  # noqa: BLE001 - every exception is an observable
+                return canon_exc(e, self)
+        try:
+            p = self.mod.Process(pid)
+            p._name, p._ppid = name, ppid
+            p.oneshot_enter()
+            entered = True
+            for m, st in history:
+                w.base_state = st
+                n0 = len(w.trace)
+                self.in_terminal = m == "terminal"
+                hobs.append(one(m))
+                htr.append(w.trace[n0:])
+            if exited:
+                p.oneshot_exit()
+                entered = False
+            n0 = len(w.trace)
+            if fault_k is not None:
+                w.fault_at = n0 + fault_k
+            self.in_terminal = meth == "terminal"
+            cached = (getattr(p, "_name", None), getattr(p, "_ppid", None))   # what the object holds when the call starts
+            obs = one(meth)
+            obs["cached"] = cached
+            tr = w.trace[n0:]
+        finally:
+            try:
+                if entered:
+                    w.fault_at = None
+                    p.oneshot_exit()
+            finally:
+                self.world = None
+                self.in_terminal = False
+        obs["sleeps"] = w.sleeps
+        return obs, hobs, tr, htr
 
     def call(self, fn, *a, world=None, **kw):
         """call any function of the alias package over a scripted world (system-wide functions)"""
